@@ -79,6 +79,16 @@ def check_folded(ctx, prog):
         return None
 
     def step(nd, st):
+        if nd.kind == 'decl' and isinstance(nd.info, dict) and nd.info.get('id') in st:
+            ini = nd.info.get('init') or {}
+            if not any(w.get('k') == 'call' and (w.get('pq') or '') in ('asl::String::trimmed', 'asl::String::trim') for w in walk_expr(ini)):
+                return st - frozenset([nd.info['id']])      # a fresh line object of this iteration
+            return st
+        if nd.kind == 'decl' and isinstance(nd.info, dict) and nd.info.get('id') is not None:
+            ini = nd.info.get('init') or {}
+            if any(w.get('k') == 'call' and (w.get('pq') or '') == 'asl::String::trimmed' for w in walk_expr(ini)):
+                return st | frozenset([nd.info['id']])      # `String line = readLine().trimmed();`
+            return st
         if nd.kind != 'ev' or nd.e is None:
             return st
         e = nd.e
